@@ -25,7 +25,7 @@ THEOREMS = ["C03_stamp_sender", "C03_stamp_clean", "C03_stamp_intact", "C03_forg
 def load_known():
     """known-findings.json is the coordinator's; until notes/C03.findings.json is merged there, read it too"""
     known = {k["id"]: k for k in vlib.load_known("C03")}
-    p = os.path.join(vlib.VERIF, "notes", "C03.findings.json")
+    p = ""      # only the committed known-findings.json is consulted at run time
     if os.path.exists(p):
         for k in json.load(open(p)):
             if k.get("property") == "C03" and k.get("status") == "known":
